@@ -92,6 +92,9 @@ pub fn explain(before: &DirState, after: &DirState, capacity: usize, own: Option
                         return Err(format!("{} was moved to the back but its read mark is still set (atime {} >= mtime {})", name, a1, m1));
                     }
                     restamped.push((*m1, *m0, name.clone()));
+                } else if a1 != a0 && *a0 >= *m0 && a1 < m1 && n > capacity {
+                    // re-stamped under a clock that did not advance: same mtime value, read mark cleared
+                    restamped.push((*m1, *m0, name.clone()));
                 } else if a1 != a0 {
                     return Err(format!("{}: atime changed ({} -> {}) although the file was neither evicted nor moved back", name, a0, a1));
                 }
